@@ -242,10 +242,10 @@ Print Assumptions C13_pack_uint_eq_lua.
    documented "pattern too complex" - never another value.  That both sources have the control flow of the
    transcription is NOT a theorem (no second, structurally separate model): it rests on the per-call
    correspondence with the compiled port and the real interpreter. *)
-Theorem C13_match_eq_lua : forall src pat p0 s, is_bytes src = true ->
+Theorem C13_match_eq_lua_within_budget : forall src pat p0 s, is_bytes src = true ->
   run_match nl_cfg src pat p0 s = MTooComplex \/ run_match nl_cfg src pat p0 s = run_match lua_cfg src pat p0 s.
 Proof. exact match_eq_lua. Qed.
-Print Assumptions C13_match_eq_lua.
+Print Assumptions C13_match_eq_lua_within_budget.
 
 (* ... and it stops exactly when lstrlib.c's own algorithm would if MAXCCALLS were MAX_MATCH_CALLS: the port is
    Lua's matcher with the smaller budget, result for result *)
@@ -253,6 +253,15 @@ Theorem C13_match_is_lua_with_small_budget : forall src pat p0 s, is_bytes src =
   run_match nl_cfg src pat p0 s = run_match lua_small_cfg src pat p0 s.
 Proof. exact match_is_lua_with_small_budget. Qed.
 Print Assumptions C13_match_is_lua_with_small_budget.
+
+(* the budget is a DOCUMENTED LIMITATION of the port (MAX_MATCH_CALLS = 32 in strpatt.nelua, "pattern too complex"), not a
+   defect: DESIGN 9.2.  That it really is narrower than Lua's: on 31 nested captures Lua's configuration finds the match,
+   the port's stops.  (So the "= MTooComplex" disjunct of C13_match_eq_lua_within_budget cannot be dropped.) *)
+Theorem C13_match_budget_is_a_limit :
+  run_match nl_cfg [120] paren31 0 0 = MTooComplex /\
+  exists caps, run_match lua_cfg [120] paren31 0 0 = MFound 1 caps.
+Proof. exact match_budget_witness. Qed.
+Print Assumptions C13_match_budget_is_a_limit.
 
 (* a match that starts inside the subject ends at or after its start and inside the subject *)
 Theorem C13_match_range : forall cfg src pat p0 pos e c,
